@@ -6,7 +6,7 @@ import docgen
 from props.tv_common import *
 from props.parse_common import corpus_files, regression_files
 
-TYPES = ["config", "plain", "dates", "ints", "s", "owner"]
+TYPES = ["config", "plain", "dates", "ints", "roote", "s", "owner"]
 ONE = ["pure", "disp", "rt", "rtp", "trt", "fix", "fixp", "same", "ord", "ordp", "tord", "twice"]
 WHAT = {
     "pure": "two calls of to_string on the same value give different text",
